@@ -19,6 +19,8 @@ Suites
                          specification: the Turtle string productions [22]-[25].
   tterm    (proof tie)   coq/Grammar/TurtleIri.v <-> the IRIREF branch of SinkParser.uri_ref2 (two-pass unescaping, join), called directly;
                          specification: Turtle IRIREF production + RFC 3986 resolution.
+  tpname   (proof tie)   coq/Grammar/TurtlePname.v <-> SinkParser.qname + the prefix lookup of uri_ref2, called directly;
+                         specification: Turtle PNAME_NS / PNAME_LN (finding C05r).
   relref   (conformance) one relative IRI reference per Turtle/TriG document, every RFC 3986 kind x every kind of base x
                          @base / BASE / publicID, against the harness's own RFC 3986 5.2 resolver (findings C05l-p, repaired by 2947bd7e).
 """
@@ -61,7 +63,8 @@ TRUSTED = [
     "harness/c05.py: conversion of rdflib terms to code-point lists (str.__str__, ord), the case generators, and the mapping of "
     "rdflib's fresh blank nodes back to document labels through bnode_context",
     "harness/reflect_c05.py: reflection of _invalid_uri_chars, DATASET_DEFAULT_GRAPH_ID, the regular expressions of the line "
-    "reader, of _uri_parts and of strconst, Python's \\s / str.isspace classes, strconst's escape letters (probed)",
+    "reader, of _uri_parts and of strconst, Python's \\s / str.isspace classes, strconst's escape letters (probed), qname's "
+    "character sets _notQNameChars / escapeChars",
     "for the conformance suites (spell, sources, xmlout, relref): the independent writers, the RFC 3986 resolver and the brute-force "
     "isomorphism oracle in this file, Python's xml.sax and json modules",
 ]
@@ -78,7 +81,9 @@ ASSUMPTIONS = [
     "references only)",
     "strconst / uri_ref2: errors are not distinguished (BadSyntax / AssertionError / IndexError = rejected); Turtle IRIREF: the "
     "denoted IRI contains no backslash (not a legal IRI; there the two unescaping passes of uri_ref2 differ from the grammar); the "
-    "Turtle statement grammar, prefixed names, numbers, language tags and blank node labels at Turtle level, RDF/XML and JSON-LD are "
+    "prefixed names: the theorem covers names whose local part does not end in a dot and that are followed by a character that "
+    "cannot continue a name (a name directly followed by the statement's '.' is tested by suite tpname only); the "
+    "Turtle statement grammar, numbers, language tags and blank node labels at Turtle level, RDF/XML and JSON-LD are "
     "exercised by conformance testing only (no Coq model)",
 ]
 RULE = ("ntout/ntread: 1-4 rows over a small vocabulary of IRIs, labels, lexical forms, language tags and datatypes that contains "
@@ -88,7 +93,9 @@ RULE = ("ntout/ntread: 1-4 rows over a small vocabulary of IRIs, labels, lexical
         "join: base x reference over ten base shapes, the RFC 3986 5.4 references and random strings over ':/?#.ab'; non-trivial when "
         "the result differs from the reference. tstring: a value spelled in one of the four quotings with random escapes, 30% with "
         "one character dropped/inserted/replaced; non-trivial when accepted and containing an escape. tterm: an IRI or relative reference "
-        "spelled as IRIREF with random \\u/\\U escapes against ten base shapes or no base, 25% damaged; non-trivial when accepted and escaped.")
+        "spelled as IRIREF with random \\u/\\U escapes against ten base shapes or no base, 25% damaged; non-trivial when accepted and escaped. "
+        "tpname: prefix x local part spelled with random PN_LOCAL escapes, %HH, dots and colons, followed by one of 16 tails, 25% damaged; "
+        "non-trivial when accepted.")
 
 # ------------------------------------------------------------------ explicit terms <-> JSON
 # term JSON: ["I", s] | ["B", s] | ["L", lex, None | ["lang", l] | ["dt", d]]
@@ -2326,4 +2333,88 @@ class TTerm(Suite):
         return {"accepted": int(obs is not None), "with_base": int(case["base"] is not None), "escaped": int("\\" in case["text"])}
 
 
-SUITES = [NtOut(), LangTag(), NtRead(), Spell(), Sources(), XmlOut(), RelRef(), Join(), TString(), TTerm()]
+# ====================================================================== tpname (proof tie)
+class TPname(Suite):
+    """SinkParser.qname + the prefix lookup of uri_ref2 against the Coq model and the Turtle PNAME_NS / PNAME_LN productions
+    (coq/Grammar/TurtlePname.v), called directly"""
+    name = "tpname"
+    imports = "From RV Require Import Grammar.TurtlePname."
+    case_ty = "pcase"
+    obs_ty = "pobs"
+    model = "p_model"
+    oeq = "pair_eqb"
+    spec = "p_spec_ok"
+    kf = "p_kf"
+    kf_ids = {18: "C05r"}
+    corr = "notation3.SinkParser.qname, uri_ref2 (prefixed-name branch: self._bindings[pfx] + ln)"
+    quick_n = 400
+    thorough_n = 6000
+    PREFIXES = ["", "e", "E1", "e.x", "é", "a-b", "x1"]
+    LOCALS2 = LOCALS + ["a.", "a..b", "a.b.c", "%41z", "x:y:", "1", "-a", "a~", ".a", "a_", "été", "a%2Fb", "a/b", "a#b", "_", "a."]
+    TAILS = [" .", " ;", ",", ". ", ".", "..", "", " ", ")", "]", "\n", ".\n", ";", " a", "<", "\\"]
+
+    def spell_local(self, rng, local):
+        out = []
+        n = len(local)
+        i = 0
+        while i < n:
+            c = local[i]
+            if c == "%" and i + 2 < n + 1 and all(h in "0123456789abcdefABCDEF" for h in local[i + 1:i + 3]) and len(local[i + 1:i + 3]) == 2:
+                out.append(c)
+            elif c.isalnum() or c in "_:":
+                out.append("\\_" if c == "_" and rng.random() < 0.3 else c)
+            elif c == ".":
+                out.append("." if 0 < i < n - 1 and rng.random() < 0.7 else "\\.")
+            elif c == "-":
+                out.append("-" if i > 0 and rng.random() < 0.7 else "\\-")
+            elif c in "~.-!$&'()*+,;=/?#@%_":
+                out.append("\\" + c)
+            else:
+                out.append(c)
+            i += 1
+        return "".join(out)
+
+    def gen(self, rng, i):
+        while True:
+            pfx = rng.choice(self.PREFIXES)
+            text = pfx + ":" + self.spell_local(rng, rng.choice(self.LOCALS2)) + rng.choice(self.TAILS)
+            if rng.random() < 0.25:
+                k = rng.randrange(len(text) + 1)
+                op = rng.choice(["drop", "ins", "rep"])
+                ch = rng.choice(["\\", ".", "%", ":", "4", "g", " ", "-", "~", "é"])
+                text = text[:k] + (ch if op != "drop" else "") + text[k + (0 if op == "ins" else 1):]
+            if text[:1] not in ("<", "?", "_", "", "(", "[", '"', "'") and not text[:1].isspace():
+                break
+        binds = [[p, "http://ns/" + (p or "default") + "#"] for p in rng.sample(self.PREFIXES, rng.choice([3, 5, 7]))]
+        return {"bind": binds, "text": text}
+
+    def run_impl(self, case):
+        from rdflib.plugins.parsers.notation3 import RDFSink, SinkParser
+        text = case["text"]
+        try:
+            p = SinkParser(RDFSink(Graph()), baseURI="http://base/", turtle=True)
+            p._bindings = {}
+            for k, v in case["bind"]:
+                p._bindings[k] = v           # what the @prefix / PREFIX directives do
+            res = []
+            j = p.uri_ref2(text, 0, res)
+            if j >= 0 and len(res) == 1 and isinstance(res[0], URIRef):
+                return [str.__str__(res[0]), text[j:]]
+            return None
+        except Exception:  # noqa: BLE001
+            return None
+
+    def coq_case(self, case):
+        return "{| p_bind := " + clist(ctuple(cstr(k), cstr(v)) for k, v in case["bind"]) + "; p_text := " + cstr(case["text"]) + " |}"
+
+    def coq_obs(self, obs):
+        return copt(obs, lambda x: ctuple(cstr(x[0]), cstr(x[1])))
+
+    def nontrivial(self, case, obs):
+        return obs is not None
+
+    def features(self, case, obs):
+        return {"accepted": int(obs is not None), "escaped": int("\\" in case["text"]), "percent": int("%" in case["text"])}
+
+
+SUITES = [NtOut(), LangTag(), NtRead(), Spell(), Sources(), XmlOut(), RelRef(), Join(), TString(), TTerm(), TPname()]
